@@ -100,11 +100,28 @@ def gen(rng, tier):
               "ffefffffffffffff", "3ff0000000000000", "bff0000000000000", "4340000000000000", "433fffffffffffff", "3fb999999999999a"]:
         for p in [0, 1, 17, 34]:
             yield dict(family="f64-special", vars=[C01.recv(rng, prec=p)], ops=["SetFloat64 0 " + h] + CONV)
-    # receivers of precision MaxPrec (the uint32 increment z.prec++ wraps)
-    for h in ["3fb999999999999a", "4340000000000000", "3ff8000000000000", "0000000000000001"]:
+    # receivers of precision MaxPrec (no extra working digit is available; only values that need no scaling,
+    # a MaxPrec-digit division is out of reach)
+    for h in ["4330000000000000", "433fffffffffffff", "c330000000000001"]:
         yield dict(family="maxprec", vars=[zero(0, prec=2**32 - 1, mode=rng.randint(0, 5))], ops=["SetFloat64 0 " + h])
-    yield dict(family="maxprec", vars=[zero(0, prec=2**32 - 1)], ops=["SetFloat 0 1 0 3 -2 2"])
     yield dict(family="maxprec", vars=[zero(0, prec=2**32 - 1)], ops=["SetFloat 0 1 0 3 0 2"])
+    yield dict(family="maxprec", vars=[zero(0, prec=2**32 - 2)], ops=["SetFloat 0 1 1 5 3 3"])
+    # zeros and infinities into a big.Float that already holds a value
+    for xf in (zero(0, prec=5), zero(1, prec=5), inf(0, prec=5), inf(1, prec=5)):
+        for zf in (0, 1, 2):
+            for zn in (0, 1):
+                yield dict(family="float-special", vars=[xf], ops=["Float 0 %d %d %d %d" % (rng.choice([1, 24, 64]), rng.randint(0, 5), zf, zn)])
+        yield dict(family="float-special", vars=[xf], ops=["Float 0 nil", "Float 0 0 %d 2 1" % rng.randint(0, 5), "Float 0 0 0 0 1"])
+    # short values (integers and dyadic fractions with few digits) at small precisions: the exactness clause
+    for _ in range(250 * n):
+        import struct
+        v = rng.choice([1, 2, 3, 5, 7, 10, 12, 25, 100, 125, 1000, rng.randint(1, 2000)]) / 2.0 ** rng.choice([0, 0, 1, 2, 3, 6])
+        v = v * 2.0 ** rng.choice([0, 0, 0, 10, 40, -10])
+        if rng.randint(0, 1):
+            v = -v
+        h = "%016x" % struct.unpack("<Q", struct.pack("<d", v))[0]
+        z = C01.recv(rng, prec=rng.choice([1, 2, 3, 4, 5, 6, 8, 10, 12, 14, 15, 16, 17, 18, 20]))
+        yield dict(family="f64-short", vars=[z], ops=["SetFloat64 0 " + h] + CONV)
     # (ii) full expansion: precision 800 holds every float64 exactly
     for _ in range(200 * n):
         be = rng.choice([0, 1, rng.randint(0, 2046), rng.randint(900, 1150), 2046])
@@ -289,7 +306,11 @@ def check_decimal_image(z1, neg, V, p, mode, tol, st, key, scale_digits):
                 return fcommon.tagged("setfloat-inexact-scale", msg + " (the %d-digit scaling operand is rounded to %d digits)" % (scale_digits, p + 1))
             return msg
         if z1[4] != "0":
-            return "exact conversion reported accuracy %s" % z1[4]
+            msg = "the stored value is exact but accuracy %s is reported" % z1[4]
+            if scale_digits > p + 1:
+                st[key + "_inexact_scale"] = st.get(key + "_inexact_scale", 0) + 1
+                return fcommon.tagged("setfloat-inexact-scale", msg + " (the %d-digit scaling operand is rounded to %d digits)" % (scale_digits, p + 1))
+            return msg
         return None
     want = pyspec.round_fin(neg, V, 0, p, mode)
     assert want[0] == "fin"
@@ -318,8 +339,6 @@ def judge_setfloat64(t, prev, vs, outcome, st):
         return "unexpected ErrNaN"
     p = int(z0[2]) if int(z0[2]) != 0 else 17
     if int(z1[2]) != p:
-        if p == 2**32 - 1 and int(z1[2]) == 33:
-            return fcommon.tagged("prec-wrap", "precision MaxPrec became 33 (z.prec++ wraps to 0)")
         return "precision %s, want %d" % (z1[2], p)
     if z1[3] != z0[3]:
         return "rounding mode changed"
@@ -348,8 +367,6 @@ def judge_setfloat(t, prev, vs, st):
         # ceil(bp * log10(2)) = smallest p with 10^p >= 2^bp = digit count of 2^bp - 1
         p = ndigits(2 ** bp - 1) if bp > 0 else 0
     if int(z1[2]) != p:
-        if p == 2**32 - 1 and int(z1[2]) == 33:
-            return fcommon.tagged("prec-wrap", "precision MaxPrec became 33 (z.prec++ wraps to 0)")
         return "precision %s, want %d" % (z1[2], p)
     if z1[3] != z0[3]:
         return "rounding mode changed"
@@ -390,10 +407,7 @@ def judge_float(t, prev, vs, res, st):
     if x[0] == "0":
         if (form, neg) == (0, int(x[1])):
             return None
-        msg = "zero converted into form %d neg %d" % (form, neg)
-        if t[2] != "nil" and t[4] == "2" and form == 2:
-            return fcommon.tagged("float-stale-inf", msg + " (the infinity previously held by z is not cleared)")
-        return msg
+        return "zero converted into form %d neg %d" % (form, neg)
     if x[0] == "2":
         return None if (form, neg) == (2, int(x[1])) else "infinity converted into form %d neg %d" % (form, neg)
     if neg != int(x[1]):
